@@ -10,7 +10,8 @@ PROP = 'C13'
 F_QUICK = [0.0, -0.0, 5e-324, 1e-300, 0.5, 1.0, -1.0, 2.0, 709.79, 1e155, 1e300, 1.7976931348623157e308, -1.7976931348623157e308]
 F_THOROUGH = F_QUICK + [2.2250738585072014e-308, 1.0000000000000002, math.pi / 2, math.pi, 709.0, 710.0, -745.2, 1e16, 1e154,
                         -1e300, -0.5, -2.0, 1e-155, 3.0, 170.0, 171.7, 0.9999999999999999]
-I_POOL = [0, 1, -1, 2, 1023, 1024, 1 << 53, 1 << 63, 1 << 64, 1 << 1023, 1 << 1024, 10 ** 400]
+I_POOL = [0, 1, -1, 2, 1023, 1024, 1 << 53, 1 << 63, 1 << 64, 1 << 1023, 1 << 1024, (1 << 1024) - 1, (1 << 1024) - (1 << 970),
+          (1 << 1024) - (1 << 970) - 1, (1 << 1024) - (1 << 971), -((1 << 1024) - 1), 10 ** 400]
 
 CARRIERS = ('float', 'Complex', 'Duration', 'Datetime', 'JSON', 'LinearRegression', 'Matrix')
 
@@ -21,7 +22,7 @@ def carries_float(t):
 
 def build_cases(tier, sigs):
     fl = F_QUICK if tier == 'quick' else F_THOROUGH
-    ints = I_POOL if tier != 'quick' else I_POOL[:9] + [1 << 1024]
+    ints = I_POOL if tier != 'quick' else I_POOL[:9] + I_POOL[10:14]
     pools = Pools(ints=ints, floats=fl, size=len(fl))
     small = Pools(ints=ints[:5], floats=fl[:5], size=3)
     out = []
@@ -81,6 +82,42 @@ def build_cases(tier, sigs):
     for txt in ('1e999', '-1e999', '1e308', '1e309', '123456789012345678901234567890', '9' * 400, '0.1e400', '[1e400]', '{"a": 1e999}', 'NaN', 'Infinity', '-Infinity'):
         extra.append(('json_deserialize', 'json_deserialize(%s)' % xstr(txt)))
         extra.append(('json-roundtrip', 'json_deserialize(%s).serialize()' % xstr(txt)))
+    # distributions built from edge parameters, then every float-producing method on them
+    dpar = [0.5, 2.0, 1000.0] if tier == 'quick' else \
+           [0.0, 5e-324, 1e-300, 0.5, 1.0, 2.0, 1000.0, 1e16, 1e155, 1e300, 1.7976931348623157e308, -1.0]
+    dpools = Pools(ints=[2, 40] if tier == 'quick' else [0, 1, 2, 40, 1 << 62], floats=dpar, size=len(dpar))
+    methods = ['%s.sample(40)', '%s.random()', '%s.mean()', '%s.variance()', '%s.std_dev()', '%s.skewness()']
+    xs = ['0.0', '1.0', xfloat(-1e300), xfloat(1e300), xfloat(5e-324)]
+    for x in xs:
+        methods += ['%%s.pdf(%s)' % x, '%%s.cdf(%s)' % x, '%%s.z_score(%s)' % x]
+    for p in ('0.0', '1.0', '0.5', xfloat(1e-300), '0.9999999999999999'):
+        methods.append('%%s.quantile(%s)' % p)
+    for sig in sigs:
+        if sig['kind'] != 'static' or sig['ret'] not in ('ContinuousDistribution<>',):
+            continue
+        for bind, ptypes, opts, ret in instantiate(sig):
+            if any(p not in (FLOAT, INT) for p in ptypes):
+                continue
+            for ar in arities(opts):
+                combos = arg_tuples(dpools, ptypes[:ar], len(dpar), 160 if tier == 'quick' else 2000)
+                for c in combos or []:
+                    d = call_src(sig['name'], list(c))
+                    for m in methods:
+                        extra.append(('dist-' + sig['name'], m % d))
+    dmethods = ['%s.sample(40)', '%s.random()', '%s.mean()', '%s.variance()', '%s.std_dev()', '%s.skewness()', '%s.pmf(0)', '%s.pmf(1)',
+                '%s.cdf(0)', '%s.cdf(%s)' % ('%s', xint(1 << 62)), '%s.quantile(0.0)', '%s.quantile(1.0)', '%s.quantile(0.5)', '%s.z_score(1.0)']
+    for sig in sigs:
+        if sig['kind'] != 'static' or sig['ret'] not in ('DiscreteDistribution<>',):
+            continue
+        for bind, ptypes, opts, ret in instantiate(sig):
+            if any(p not in (FLOAT, INT) for p in ptypes):
+                continue
+            for ar in arities(opts):
+                combos = arg_tuples(dpools, ptypes[:ar], len(dpar), 120 if tier == 'quick' else 1000)
+                for c in combos or []:
+                    d = call_src(sig['name'], list(c))
+                    for m in dmethods:
+                        extra.append(('ddist-' + sig['name'], m % d))
     for kind, src in extra:
         if src in seen:
             continue
@@ -99,7 +136,7 @@ def nonfinite(v):
 def _chunk(args):
     chunk, = args
     units = [('c%d' % i, 'let c%d = ()->{ %s };' % (i, c['src'])) for i, c in enumerate(chunk)]
-    outs = run_units(units, dump={'max_items': 40}, timeout=15.0)
+    outs = run_units(units, dump={'max_items': 40}, timeout=6.0)
     res = []
     for c, o in zip(chunk, outs):
         v = o.v
